@@ -15,6 +15,7 @@ import GgrsModel.Model.Inventory
 import GgrsModel.Model.P2P
 import GgrsModel.Proofs.Monad
 import GgrsModel.Proofs.Checksums
+import GgrsModel.Proofs.DropGame
 
 namespace Ggrs.P2P
 
@@ -91,5 +92,31 @@ example {G : Type} (step : G → List (Input × InputStatus) → G) (g0 : G) (cs
   have h0' : 0 ≤ (rget s.sync.cells i).frame := h0
   rw [this] at h0'
   simp [NULL_FRAME] at h0'
+
+end Ggrs
+
+namespace Ggrs
+
+/-- **C09, what is reported — with dropped players.** Run ANY interleaving of remote-input arrivals,
+accepted `disconnect_player` calls, Disconnected events, checksum reports and comparisons, and
+`advance_frame` calls (rollback mode, either saving mode) whose requests a deterministic game
+executes, its saves handing over `csf` of the saved state. Then whenever a report is due, the cell
+it is taken from holds a frame `f` with `next report frame ≤ f ≤ last confirmed frame`, and the
+checksum reported is `csf` of the serial replay of the game's timeline up to `f` — a timeline that
+carries (blank, Disconnected) for the dropped players beyond their last frames
+(`C07_final_timeline`), so that two survivors who settle on the same cut-off report the same
+checksums. -/
+theorem C09_reports_are_replay_drops {G : Type} (step : G → List (Input × InputStatus) → G) (g0 : G)
+    (csf : G → Option Nat) (a b : P2P × GS G) (h0 : CInvD step g0 csf a) (hrun : CXStar step csf a b)
+    (interval : Nat) (cell : Cell) (hc : b.1.checksumCellToReport interval = .ok (some cell)) :
+    0 ≤ cell.frame ∧ cell.frame ≤ b.1.sync.lastConfirmedFrame ∧ b.1.nextReportFrame interval ≤ cell.frame ∧
+    cell.checksum = csf (replay step g0 b.2.R cell.frame.toNat) := by
+  obtain ⟨hd, hck⟩ := CInvD_run step g0 csf a b h0 hrun
+  exact reported_is_replayD step g0 csf b.1 b.2 hd hck interval cell hc
+
+/-- The premises are satisfiable: every state of the old world with no disconnect scheduled. -/
+example {G : Type} (step : G → List (Input × InputStatus) → G) (g0 : G) (csf : G → Option Nat) (w : P2P × GS G)
+    (h : CInv2 step g0 csf w) (hdf : w.1.disconnectFrame = NULL_FRAME) : CInvD step g0 csf w :=
+  ⟨WInvD_of_WInv step g0 w.1 w.2 h.1.1 hdf, h.2⟩
 
 end Ggrs
